@@ -111,6 +111,9 @@ lp_feasibility_set_int_t* lp_feasibility_set_int_new_copy(const lp_feasibility_s
 static
 void lp_feasibility_set_int_destruct(lp_feasibility_set_int_t* set) {
   lp_int_ring_detach(set->K);
+  for (size_t i = 0; i < set->size; ++ i) {
+    lp_integer_destruct(set->elements + i);
+  }
   free(set->elements);
 }
 
@@ -400,6 +403,9 @@ void lp_feasibility_set_int_invert(lp_feasibility_set_int_t *set) {
     }
   }
 
+  for (pos_old = 0; pos_old < set->size; ++ pos_old) {
+    lp_integer_destruct(old + pos_old);
+  }
   free(old);
   set->elements = new;
   set->size = cnt;
